@@ -661,6 +661,8 @@ func emittedOver(pre, live http.Header) (min, max http.Header, amb int) {
 	return
 }
 
+var serveSeq int
+
 func emitServe(t *tracer, m *cors.Middleware, dbg bool, rs reqSpec, pre http.Header, inner *innerSpec, extra map[string]any, layer int) (panicked bool) {
 	defer func() {
 		if p := recover(); p != nil {
@@ -671,7 +673,8 @@ func emitServe(t *tracer, m *cors.Middleware, dbg bool, rs reqSpec, pre http.Hea
 	r := rs.build()
 	var s served
 	w := newRec()
-	w.noAppend = layer != 0 // the layered variants read the live header map afterwards
+	serveSeq++
+	w.noAppend = layer != 0 || serveSeq%2 == 0 // the layered variants, and the buffered view below, read the live header map afterwards
 	for k, v := range pre {
 		if v != nil && len(v) == 0 {
 			w.h[k] = make([]string, 0, cap(v)) // a key with no field line: empty but not nil, possibly with spare capacity
@@ -799,6 +802,35 @@ func emitServe(t *tracer, m *cors.Middleware, dbg bool, rs reqSpec, pre http.Hea
 		ev[k] = v
 	}
 	t.emit(ev)
+	// A BUFFERING writer (http.TimeoutHandler, response-rewriting layers) does not send the header map as it was when the status
+	// was committed but as it is when the handler chain has returned. If the two differ, the response such a writer sends is
+	// recorded as a response of its own and judged like any other.
+	if w.noAppend && w.snapshot != nil && layer == 0 {
+		a, _ := json.Marshal(hdrJSON(w.snapshot))
+		b, _ := json.Marshal(hdrJSON(w.h))
+		if string(a) != string(b) {
+			ev2 := map[string]any{}
+			for k, v := range ev {
+				ev2[k] = v
+			}
+			ac := [][]int{}
+			for _, v := range w.h["Access-Control-Allow-Origin"] {
+				ac = append(ac, codes(v))
+			}
+			raw := map[string]any{}
+			for k, v := range w.h {
+				if strings.HasPrefix(k, "Access-Control-") || k == "Vary" {
+					raw[k] = nzs(v)
+				}
+			}
+			ev2["buffered"], ev2["resp"], ev2["acaob"], ev2["raw"] = true, absRespH(w.status, w.h), ac, raw
+			ev2["final"], ev2["varyt"] = hdrJSON(w.h), tokLines(w.h["Vary"], true)
+			if entry == nil {
+				ev2["mwout"] = absRespH(w.status, w.h)
+			}
+			t.emit(ev2)
+		}
+	}
 	// A response that the handler did not commit is only read by the server AFTER the middleware has returned: its header map
 	// must not change while other requests are served - by this or by any other middleware of the process.
 	if inner.Status == 0 && !inner.Reenter {
